@@ -169,8 +169,23 @@ def grammar : Grammar Ty := { rules := fun n => lookupRule n rules, act := act }
     `Props/C09.lean: fuel_suffices`) -/
 def fuelFor (inp : Bytes) : Nat := 64 * (inp.length + 2)
 
-/-- `signature.Parse` -/
-def parseSig (inp : Bytes) : Res Ty :=
+/-- `MaxDepth`: how deep the types of a signature may be nested -/
+def maxDepth : Nat := 1000
+
+/-- `nesting`: the deepest nesting of brackets in the text (a closing bracket without an opening one is
+    passed over) -/
+def nestingFrom : Bytes → Nat → Nat → Nat
+  | [], _, deepest => deepest
+  | c :: r, depth, deepest =>
+    if c == 91 || c == 123 || c == 40 then nestingFrom r (depth + 1) (max deepest (depth + 1))
+    else if c == 93 || c == 125 || c == 41 then nestingFrom r (depth - 1) deepest
+    else nestingFrom r depth deepest
+
+def nesting (inp : Bytes) : Nat := nestingFrom inp 0 0
+
+/-- `signature.Parse` before the repair: the parser proper, which calls itself once per level of
+    nesting — in the code on the stack of the goroutine, which is finite -/
+def parseSigU (inp : Bytes) : Res Ty :=
   match run grammar (fuelFor inp) (.ref "declarationType") inp with
   | .oof => .error .panic            -- would be a stack overflow; shown unreachable
   | .fail => .error .err             -- root == nil
@@ -182,6 +197,10 @@ def parseSig (inp : Bytes) : Res Ty :=
       | .list _ => .error .err             -- "did not parse only one type"
       | .panic => .error .panic
       | _ => .error .err                   -- an error node, or "convert array"
+
+/-- `signature.Parse`: a text nested deeper than `MaxDepth` is refused before the parser sees it -/
+def parseSig (inp : Bytes) : Res Ty :=
+  if nesting inp > maxDepth then .error .err else parseSigU inp
 
 /-! ### derived representations -/
 
